@@ -88,8 +88,8 @@ Record WF (s : W) : Prop := {
        (exists i m k l, nth_error (a_reltabs a) i = Some m /\ afind k m = Some l /\ In tid l) \/
        (exists k l, afind k (a_tgttabs a) = Some l /\ In tid l)) ->
       exists t, nth_error (w_tables s) tid = Some t /\ t_arch t = aid;
-  (* an archetype without relation components has at most one table (it can be missing only after a
-     creation that panicked between createArchetype and createTable; the next use creates it) *)
+  (* an archetype without relation components has at most one table (that it has exactly one is the
+     separate clause [archs_tabled_norel] below) *)
   wf_arch_norel_table : forall aid a, nth_error (w_archs s) aid = Some a -> a_numrel a = 0 ->
       length (a_tables a) <= 1;
   wf_arch0 : exists a0, nth_error (w_archs s) 0 = Some a0 /\ a_mask a0 = 0%N /\
@@ -116,6 +116,13 @@ Record WF (s : W) : Prop := {
   wf_cache : forall addr, In addr (w_centries s) ->
       exists e, nth_error (w_cheap s) addr = Some e /\ ce_filter e < length (w_filters s);
 }.
+
+(** An additional invariant clause (kept beside the record [WF]): every archetype without relation
+    components has its table. Since the repair of [createArchetype] (which creates the single table of
+    such an archetype together with the archetype) this holds in every reachable state: no operation
+    that is rejected after the archetype was created leaves an archetype without table behind. *)
+Definition archs_tabled_norel (s : W) : Prop :=
+  forall aid a, nth_error (w_archs s) aid = Some a -> a_numrel a = 0 -> a_tables a <> [].
 
 (** ** Frames: what structure creation may and may not touch *)
 
